@@ -17,7 +17,12 @@ Grid == { [Xfer(c, b, a, FwINT("U"), acts) EXCEPT !.dn = dn, !.amtc = ac] :
         \cup { [Xfer(0, b, 1000, FwINT("U"), <<>>) EXCEPT !.dn = "L"] : b \in {"ibc/27394FB092D2ECCD56123C74F36E4C1F926001CEADA9CA97EA622B25F41E5EB2", "transfer/channel-7/a/b",
                                                                        "transfer/channel-7/factory/x/sub", "transfer/channel-07/uusdc", "Transfer/channel-7/uusdc",
                                                                        "transfer/channel-7/transfer/uusdc", "transfer/channel-7/UUSDC", "/transfer/channel-7/uusdc"} }
-MCAlphabet == Grid
+\* an octal spelling whose gap to the decimal reading is paid as a fixed fee to the orbiter account itself:
+\* "00012" is 10 for ICS-20 (base 0) - a code that read it as 12 would balance its books with the 2-unit
+\* self-fee and record a coin ICS-20 never credited
+OctalGap == { [Xfer(0, "uusdc", 12, FwINT("U"), <<FeeAct(<<Fix(2, "ORB")>>)>>) EXCEPT !.amtc = "LEADZERO"],
+              [Xfer(0, "ustake", 17, FwINT("U"), <<FeeAct(<<Fix(2, "ORB")>>)>>) EXCEPT !.amtc = "LEADZERO"] }
+MCAlphabet == Grid \cup OctalGap
 SmallAlphabet == Grid
 StepProps == [][ Prop_C16(last') /\ Prop_C01(last') /\ Prop_C02(last') /\ Prop_C12(last') ]_vars
 Depth == TLCGet("level") <= MaxDepth
